@@ -47,6 +47,11 @@ int abtmc_load(const int *p);
 void abtmc_store(int *p, int v);
 int abtmc_fetch_add(int *p, int v);
 void abtmc_progress(void);
+/* A global invariant: fn is called (inside the exploration window) in the state
+ * right after every hooked WRITE of any thread, i.e. in every state the explorer
+ * distinguishes.  fn may read anything with plain loads and report with
+ * abtmc_check(); it must not call Argobots or hooked operations. */
+void abtmc_set_invariant(void (*fn)(void));
 void abtmc_spin_hint(int site, const void *ctx);
 /* block the calling controlled thread until *p != v (hooked, hinted loop) */
 void abtmc_wait_until_ne(const int *p, int v);
